@@ -89,7 +89,7 @@ def flat : Node → String → Bool → List Atom
     flatCmdWords ctx ws 0 cwd remote ++ flatRedirects rs cwd remote
       ++ [.proper ctx.words ctx.baseIdx cwd remote, .unquotedCmd ctx.words ctx.unquoted ctx.baseIdx cwd remote]
   | .pipeline cmds, cwd, remote => flatNodes cmds cwd remote
-  | .list parts, cwd, remote => flatListParts parts (effectiveCwdS w.resolveCd parts cwd remote) remote
+  | .list parts, cwd, remote => flatListPartsCd parts cwd (effectiveCwdS w.resolveCd parts cwd remote) remote
   | .ifN c t e rs, cwd, remote =>
     flat c cwd remote ++ flat t cwd remote ++ flatOptNode e cwd remote ++ flatRedirects rs cwd remote
   | .whileN _ c b rs, cwd, remote => flat c cwd remote ++ flat b cwd remote ++ flatRedirects rs cwd remote
@@ -119,6 +119,12 @@ def flat : Node → String → Bool → List Atom
 def flatNodes : List Node → String → Bool → List Atom
   | [], _, _ => []
   | n :: ns, cwd, remote => flat n cwd remote ++ flatNodes ns cwd remote
+
+def flatListPartsCd : List Node → String → String → Bool → List Atom
+  | [], _, _, _ => []
+  | n :: ns, cwd0, cwd, remote =>
+    if isOperator n then flatListPartsCd ns cwd0 cwd remote
+    else flat n cwd0 remote ++ flatListParts ns cwd remote
 
 def flatListParts : List Node → String → Bool → List Atom
   | [], _, _ => []
